@@ -46,8 +46,9 @@ def loadComplete : List String := ["join", "index", "heads", "headput", "emit"]
 
 /-- `BaseStore.Close` (`Model/Lifecycle.lean`): the already-closed guard comes first, so that the
 tear-down — which unregisters the store in its instance BY ADDRESS — runs at most once per handle; the
-channels of the legacy API are ended with the store (F51). -/
-def close : List String := ["guard", "cancel", "unregister", "stop", "unsubscribe", "cacheclose"]
+channels of the legacy API are ended with the store (F51); the main loop's subscription is closed BEFORE the
+replicator is stopped (F55: a held-up main loop otherwise leaves an emitter blocked on the lock `Stop` needs). -/
+def close : List String := ["guard", "cancel", "unregister", "releaseloop", "stop", "unsubscribe", "cacheclose"]
 
 /-- one iteration of the loop of `BaseStore.Sync` (`syncHeads`): access check, local write of the
 head, hash check, and only then the head is put on the list handed to the replicator. -/
